@@ -58,6 +58,12 @@ def cases(tier, seed):
         out.append(dict(gen='value', ndim=int(rs.integers(1, 5)), sub=int(rs.integers(2 ** 62))))
     for k in range(n_rand * 2):
         out.append(dict(gen='disc', ndim=int(rs.integers(2, 5)), sub=int(rs.integers(2 ** 62)), nanmode=k % 5))
+    # infinite entries are values, not missing entries: +inf / -inf alone and together in one reduced slice
+    for k in range(12 if tier == 'quick' else 400):
+        out.append(dict(gen='disc', ndim=int(rs.integers(1, 4)) + 1, sub=int(rs.integers(2 ** 62)), nanmode=5, must=k < 4))
+    # arrays stored in the other byte order (a big-endian acquisition dump read with its own dtype)
+    for k in range(12 if tier == 'quick' else 300):
+        out.append(dict(gen=['value', 'monobit', 'hw_words'][k % 3], ndim=int(rs.integers(1, 4)), nb_words=int(rs.integers(1, 4)), dtype=UDT[1 + k % 3], swapped=True, sub=int(rs.integers(2 ** 62)), must=k < 6))
     for k in range(6 if tier == 'quick' else 120):
         out.append(dict(gen='disc', ndim=2, long_axis=True, sub=int(rs.integers(2 ** 62)), nanmode=[0, 1, 3][k % 3], must=k < 3))
     # model instances are reused batch after batch: the same instance called again must not remember the previous call
@@ -138,6 +144,10 @@ def run_case(case):
             sl[axis] = slice(0, k)
             a0[tuple(sl)] = np.array(np.iinfo(dt).max, dtype=dt)             # the first group of every line is saturated
             t.count('saturated_group_cases')
+        if case.get('swapped'):
+            dt = dt.newbyteorder()
+            a0 = a0.astype(dt)
+            t.count('other_byte_order_cases')
         arr = _ro(a0)
         use_default_axis = axis == ndim - 1 and rng.integers(2) == 1
         m = scared.HammingWeight(nb_words=k, expected_dtype=dt)
@@ -216,7 +226,12 @@ def run_case(case):
         b = int(rng.integers(0, maxbit + 1))
         shape = [int(rng.integers(1, 6)) for _ in range(case['ndim'])]
         info = np.iinfo(dt)
-        arr = _ro(rng.integers(info.min, info.max, shape, dtype=dt, endpoint=True))
+        a0 = rng.integers(info.min, info.max, shape, dtype=dt, endpoint=True)
+        if case.get('swapped'):
+            dt = dt.newbyteorder() if dt.itemsize > 1 else np.dtype('>u4')
+            a0 = a0.astype(dt)
+            t.count('other_byte_order_cases')
+        arr = _ro(a0)
         axis = int(rng.integers(0, case['ndim']))
         got = scared.Monobit(b)(arr, axis=axis)
         exp = np.array([(int(v) >> b) & 1 for v in arr.ravel().tolist()], dtype='int64').reshape(shape)
@@ -228,13 +243,18 @@ def run_case(case):
         dts = ['uint8', 'int8', 'uint16', 'int32', 'uint64', 'float32', 'float64']
         dt = np.dtype(dts[int(rng.integers(len(dts)))])
         shape = [int(rng.integers(1, 6)) for _ in range(case['ndim'])]
-        arr = _ro((rng.normal(0, 100, shape)).astype(dt) if dt.kind == 'f' else
-                  rng.integers(np.iinfo(dt).min, np.iinfo(dt).max, shape, dtype=dt, endpoint=True))
+        a0 = (rng.normal(0, 100, shape)).astype(dt) if dt.kind == 'f' else rng.integers(np.iinfo(dt).min, np.iinfo(dt).max, shape, dtype=dt, endpoint=True)
+        if case.get('swapped'):
+            dt = dt.newbyteorder() if dt.itemsize > 1 else np.dtype('>i2')
+            a0 = a0.astype(dt)
+            t.count('other_byte_order_cases')
+        arr = _ro(a0)
         snap = arr.tobytes()
         got = scared.Value()(arr, axis=int(rng.integers(0, case['ndim'])))
         t.count('value_values', arr.size)
-        t.check(got.shape == arr.shape and got.dtype == arr.dtype and got.tobytes() == snap, 'value_identity',
-                dict(dtype=str(dt), shape=shape))
+        same = got.shape == arr.shape and np.array_equal(np.asarray(got), a0) and np.asarray(got).astype('float64').tolist() == a0.astype('float64').tolist()
+        t.check(same and (case.get('swapped') or (got.dtype == arr.dtype and got.tobytes() == snap)), 'value_identity', dict(dtype=str(dt), shape=shape))
+        t.check(arr.tobytes() == snap, 'input_modified', 'Value')
         sig = f'value|{dt}|{shape}'
     elif g == 'disc':
         ndim = case['ndim']
@@ -265,6 +285,12 @@ def run_case(case):
         elif mode == 4:
             arr[rng.random(shape) < 0.2] = np.nan
             arr = -np.abs(arr)     # all negative: max of abs / opposite of min differ from plain max
+        elif mode == 5:
+            arr[rng.random(shape) < 0.15] = np.nan
+            r = rng.random(shape)
+            arr[r < 0.12] = np.inf
+            arr[(r >= 0.12) & (r < 0.2)] = -np.inf
+            t.count('infinite_entry_cases')
         if case.get('long_axis'):
             la = int(np.argmax(shape))
             for _ in range(int(rng.integers(1, 4))):
@@ -301,16 +327,18 @@ def run_case(case):
                         e = max(abs(v) for v in vals) if vals else math.nan
                     elif name == 'opposite_min':
                         e = -min(vals) if vals else math.nan
-                    elif name == 'nansum':
-                        e = math.fsum(vals)
-                    else:
-                        e = math.fsum(abs(v) for v in vals)
+                    elif name in ('nansum', 'abssum'):
+                        vv = vals if name == 'nansum' else [abs(v) for v in vals]
+                        pinf, ninf = any(v == math.inf for v in vv), any(v == -math.inf for v in vv)
+                        e = math.nan if (pinf and ninf) else math.inf if pinf else -math.inf if ninf else math.fsum(vv)
                     t.count('disc_slices')
                     if math.isnan(e):
                         good = math.isnan(g_v)
+                    elif math.isinf(e):
+                        good = g_v == e
                     elif name in ('nansum', 'abssum') and not exact:
                         eps = np.finfo(dt).eps
-                        good = abs(g_v - e) <= 4 * len(vals) * eps * math.fsum(abs(v) for v in vals) + 1e-300
+                        good = abs(g_v - e) <= 4 * len(vals) * eps * math.fsum(abs(v) for v in vals if not math.isinf(v)) + 1e-300
                     else:
                         good = g_v == e
                     if not good and bad is None:
